@@ -254,7 +254,7 @@ pub fn c02() -> JobCheck {
         },
         monitors: Monitors { links: true, fifo: true, ..Monitors::default() },
         k: (2, 3),
-        cases: (300, 7000),
+        cases: (300, 3000),
         nontrivial: |_f, _j, _c, run| max_batches(run) >= 3,
         classes: |_f, _j, _c, run, rep| {
             let lc = run.ctx.link_counts.lock().unwrap();
@@ -300,7 +300,7 @@ pub fn c03() -> JobCheck {
         // the join results (the pre-aggregated side of a keyed join is not traceable element by element)
         monitors: Monitors { routing: true, sinks: true, ..Monitors::default() },
         k: (3, 4),
-        cases: (300, 7000),
+        cases: (300, 3000),
         nontrivial: |_f, _j, _c, run| {
             run.routing_stats
                 .borrow()
@@ -330,7 +330,7 @@ pub fn c19_run() -> JobCheck {
         profile: || Profile { name: "c19run", w_repart: 34, w_diamond: 10, w_with: 8, w_replay: 5, w_iterate: 4, max_input: 60, ..Profile::base() },
         monitors: Monitors { placement: true, ..Monitors::default() },
         k: (3, 4),
-        cases: (160, 4000),
+        cases: (160, 1600),
         nontrivial: |f, _j, c, _r| c.layout.n_hosts() >= 2 && f.repartitions >= 2,
         classes: no_classes,
     }
@@ -352,7 +352,7 @@ pub fn c04() -> JobCheck {
         },
         monitors: Monitors { sinks: true, workers: true, ..Monitors::default() },
         k: (3, 4),
-        cases: (300, 7000),
+        cases: (300, 3000),
         nontrivial: |f, _j, _c, run| f.has_loop || f.diamond || f.empty_source || max_batches(run) > 16,
         classes: |_f, _j, _c, run, rep| {
             rep.class_if(max_batches(run) > 16, "run:link_over_16_batches");
@@ -366,7 +366,7 @@ pub fn c05() -> JobCheck {
         profile: || Profile { name: "c05", w_replay: 12, w_iterate: 5, w_window: 12, w_keyed_agg: 12, join_in_loop_quarters: 2, ..Profile::base() },
         monitors: Monitors { grammar: true, per_iteration: true, alignment: true, ..Monitors::default() },
         k: (2, 3),
-        cases: (300, 7000),
+        cases: (300, 3000),
         nontrivial: |f, _j, c, _r| f.has_loop || (multi(c) && f.repartitions >= 1),
         classes: no_classes,
     }
@@ -388,7 +388,7 @@ pub fn c07() -> JobCheck {
         },
         monitors: Monitors { sinks: true, per_iteration: true, grammar: true, ..Monitors::default() },
         k: (3, 4),
-        cases: (300, 7000),
+        cases: (300, 3000),
         nontrivial: |f, j, c, _r| f.has_agg && multi(c) && j.pipe.source.len() >= 4,
         classes: |f, j, _c, _r, rep| {
             rep.class_if(f.has_agg && f.has_loop, "agg:inside_or_next_to_loop");
@@ -415,7 +415,7 @@ pub fn c08() -> JobCheck {
         },
         monitors: Monitors { sinks: true, per_iteration: true, ..Monitors::default() },
         k: (3, 5),
-        cases: (300, 7000),
+        cases: (300, 3000),
         nontrivial: |f, j, c, _r| f.has_join && multi(c) && j.pipe.source.len() >= 2,
         classes: no_classes,
     }
@@ -439,7 +439,7 @@ pub fn c09() -> JobCheck {
         },
         monitors: Monitors { sinks: true, per_iteration: true, ..Monitors::default() },
         k: (3, 4),
-        cases: (300, 7000),
+        cases: (300, 3000),
         nontrivial: |f, j, _c, _r| {
             (f.diamond || f.has_route || f.multi_sink || f.has_broadcast || f.has_zip) && j.pipe.source.len() >= 10
         },
@@ -464,7 +464,7 @@ pub fn c10() -> JobCheck {
         },
         monitors: Monitors { sinks: true, per_iteration: true, loop_state: true, grammar: true, ..Monitors::default() },
         k: (3, 5),
-        cases: (260, 6000),
+        cases: (260, 2600),
         nontrivial: |f, _j, c, _r| f.has_loop && multi(c),
         classes: |_f, _j, _c, run, rep| {
             let states = run.probes.iter().filter(|p| p.state.is_some()).count() as u64;
@@ -498,7 +498,7 @@ pub fn c11() -> JobCheck {
             ..Monitors::default()
         },
         k: (3, 5),
-        cases: (260, 6000),
+        cases: (260, 2600),
         nontrivial: |f, _j, _c, _r| f.side_input,
         classes: no_classes,
     }
